@@ -50,6 +50,10 @@ type c15Stream struct {
 	end    string
 	ch     chan clientv3.WatchResponse
 	open   bool
+	// replay not yet handed to the watcher: the harness pumps it response by
+	// response so that the interleaving of several replaying watchers is part
+	// of the case (deterministic) instead of left to the scheduler
+	pending [][]C15Event
 }
 
 func (s *c15Stream) matches(k string) bool {
@@ -198,30 +202,50 @@ func (f *C15Fake) Watch(ctx context.Context, key string, opts ...clientv3.OpOpti
 			}
 		}
 		if f.batch && len(evs) > 0 {
-			f.send(s, c15Resp(f.rev, evs))
+			s.pending = append(s.pending, evs)
 		} else {
 			for _, e := range evs {
-				f.send(s, c15Resp(e.Rev, []C15Event{e}))
+				s.pending = append(s.pending, []C15Event{e})
 			}
 		}
 	}
 	return s.ch
 }
 
-// ReplayFor returns the events a Watch(prefix, WithRev(rev)) issued now would replay.
-func (f *C15Fake) ReplayFrom(rev int64) []C15Event {
+// Pending is the number of streams with an unpumped replay.
+func (f *C15Fake) Pending() int {
 	f.mu.Lock()
 	defer f.mu.Unlock()
-	from := rev
-	if f.lastLost+1 > from {
-		from = f.lastLost + 1
-	}
-	var evs []C15Event
-	for _, e := range f.log {
-		if e.Rev >= from && !e.Lost {
-			evs = append(evs, e)
+	n := 0
+	for _, s := range f.streams {
+		if s.open && len(s.pending) > 0 {
+			n++
 		}
 	}
+	return n
+}
+
+// PumpStep hands the next replay response of the (pick mod n)-th stream that
+// has one to its watcher and returns the events it carries.
+func (f *C15Fake) PumpStep(pick int) []C15Event {
+	f.mu.Lock()
+	defer f.mu.Unlock()
+	var cand []*c15Stream
+	for _, s := range f.streams {
+		if s.open && len(s.pending) > 0 {
+			cand = append(cand, s)
+		}
+	}
+	if len(cand) == 0 {
+		return nil
+	}
+	if pick < 0 {
+		pick = -pick
+	}
+	s := cand[pick%len(cand)]
+	evs := s.pending[0]
+	s.pending = s.pending[1:]
+	f.send(s, c15Resp(evs[len(evs)-1].Rev, evs))
 	return evs
 }
 
